@@ -23,3 +23,10 @@ Proof.
     rewrite orb_diag. destruct (vltb _ m); [reflexivity|]. destruct (negb (imin r) && veqb _ m); reflexivity.
 Qed.
 Print Assumptions rr_allows_agrees.
+
+(* Version.allows as re-translated from /repo is the model's v_allows (and refuses None) *)
+Theorem v_allows_agrees x o : v_allows_gen x o = match o with None => false | Some v => v_allows x v end.
+Proof. destruct o as [v|]; reflexivity. Qed.
+Print Assumptions v_allows_agrees.
+Theorem r_allows_agrees r v : (match r with RV x => v_allows_gen x (Some v) | RR _ _ _ _ => rr_allows_gen r v end) = r_allows r v.
+Proof. destruct r as [x|lo hi i j]; [reflexivity|]. apply rr_allows_agrees. Qed.
